@@ -151,7 +151,8 @@ func (c04) Rule() string {
 	return "jpeg2000.NewEncoder(reversible single-tile params).Encode -> NewDecoder().Decode; GetPixelData byte-equal, Width/Height/Components/BitDepth/IsSigned equal. " +
 		"cases: (pairs) pairwise-covering sweep over (components 1..4, P 1..16, signed, levels 0..6, code-block w/h 4..64, precinct 0/32..256, progression 0..4, layers 1..6, MCT) on noise; (grid) every size in a small square plus sampled sizes to 40x40 with a seeded configuration; (cb) sizes around code-block multiples; (rand) sizes up to 600; (content) constant/extreme/impulse images (empty code-blocks and packets). " +
 		"non-trivial: encoder accepted the configuration and the decoded samples were compared; distinct = distinct descriptor" +
-		" (gain) gainmax content: two saturated colours in the sign pattern of one equivalent 5/3 analysis filter (largest legal wavelet coefficients), with and without the colour transform"
+		" (gain) gainmax content: two saturated colours in the sign pattern of one equivalent 5/3 analysis filter (largest legal wavelet coefficients), with and without the colour transform" +
+		" (manyprec) 32x32 precincts on 2..4-component images of 520..640 samples a side (more than 256 precincts per resolution level)"
 }
 func (c04) Assumptions() []string {
 	return []string{"self round trip through the public Encoder/Decoder objects"}
@@ -339,6 +340,29 @@ func (c04) Build(tier string, seed uint64) []any {
 		}
 		c.PW, c.PH = 0, 0
 		c.Layers = gen.Pick(r, 1, 1, 2)
+		cs = append(cs, c)
+	}
+	// (manyprec) more than 256 precincts per resolution level (32x32 precincts on images of
+	// 520..640 samples a side), 2..4 components: precinct indices that need more than one byte
+	nMany := 6
+	if th {
+		nMany = 40
+	}
+	for i := 0; i < nMany; i++ {
+		r := gen.Sub(seed, "C04", "manyprec", i)
+		c := &j2kCase{Gen: "manyprec"}
+		randJ2KConfig(r, c)
+		c.W, c.H = 520+r.Intn(120), 520+r.Intn(120)
+		if i%3 == 2 {
+			c.W, c.H = 600+r.Intn(40), 440+r.Intn(40)
+		}
+		c.C = gen.Pick(r, 2, 3, 3, 4)
+		c.P = gen.Pick(r, 8, 8, 12)
+		c.PW, c.PH = 32, 32
+		c.CBW, c.CBH = gen.Pick(r, 16, 32, 32), gen.Pick(r, 16, 32, 32)
+		c.MCT = c.C == 3 && r.Bool()
+		c.Layers = gen.Pick(r, 1, 1, 2)
+		c.Class = gen.Pick(r, "noise", "varnoise", "smooth")
 		cs = append(cs, c)
 	}
 	// (gain) two saturated colours in the sign pattern of one equivalent 5/3 analysis filter:
